@@ -526,6 +526,49 @@ pub(crate) mod b {
         println!("BOUNDED-CASES {}", n);
     }
 
+    /// N1 (C12) through every public way of filling a cell buffer: the canvas is scale x (last column + 2) by
+    /// 2 x scale x (last row + 2) of the cells that are in the buffer *now* - parsed from text, inserted through
+    /// the map interface (DerefMut) before or after parsing, or removed again
+    #[test]
+    fn bounded_get_size_every_route() {
+        let mut n = 0u64;
+        let texts = ["", "ab", "+--+\n|  |\n+--+\n", "  x\n\n\n y", "一二\n"];
+        let extra = [(0, 0), (1, 0), (9, 0), (0, 7), (30, 12), (4, 3)];
+        for text in texts {
+            for ins in 0..(1u32 << extra.len()) {
+                for remove_last in [false, true] {
+                    let mut cb = CellBuffer::from(text);
+                    let mut added = vec![];
+                    for (k, (x, y)) in extra.iter().enumerate() {
+                        if ins & (1 << k) != 0 {
+                            cb.insert(Cell::new(*x, *y), 'x');
+                            added.push(Cell::new(*x, *y));
+                        }
+                    }
+                    if remove_last {
+                        if let Some(c) = added.last() {
+                            cb.remove(c);
+                        }
+                    }
+                    let max_x = cb.iter().map(|(c, _)| c.x).max().unwrap_or(0);
+                    let max_y = cb.iter().map(|(c, _)| c.y).max().unwrap_or(0);
+                    for scale in [1.0f32, 8.0] {
+                        let st = Settings { scale, ..Settings::default() };
+                        let want = (scale * (max_x + 2) as f32, 2.0 * scale * (max_y + 2) as f32);
+                        let got = cb.get_size(&st);
+                        let (_node, w, h): (Node<()>, f32, f32) = cb.get_node_with_size(&st);
+                        if got != want || (w, h) != want {
+                            println!("BOUNDED-WITNESS text {:?} + inserted {:?} (last removed: {}): size {:?} / {:?}, want {:?}", text, added, remove_last, got, (w, h), want);
+                            panic!("canvas = one cell of margin around the occupied cells");
+                        }
+                        n += 1;
+                    }
+                }
+            }
+        }
+        println!("BOUNDED-CASES {}", n);
+    }
+
     /// WITNESS of a known finding (C12): quoted text is kept outside the cell map, so the canvas does not
     /// grow for it.  Fails while the defect is present (pinned by the repository's own test `escaped_shape`).
     #[test]
@@ -568,6 +611,44 @@ pub(crate) mod b {
                     }
                 }
                 n += 1;
+            }
+        }
+        println!("BOUNDED-CASES {}", n);
+    }
+
+    /// C12: every drawing of the three arc catalogues (quarter, half, three quarters of each circle size), drawn
+    /// free-standing at several offsets, is recognised into fragments that all lie inside the canvas
+    #[test]
+    fn bounded_arc_catalogue_inside_canvas() {
+        let mut n = 0u64;
+        for (kind, span) in crate::map::circle_map::__verif::arc_catalogue_spans() {
+            let w = span.iter().map(|(c, _)| c.x).max().unwrap_or(0) as usize + 1;
+            let h = span.iter().map(|(c, _)| c.y).max().unwrap_or(0) as usize + 1;
+            for (dx, dy) in [(0usize, 0usize), (7, 2), (1, 5)] {
+                let mut g = vec![vec![' '; w + dx]; h + dy];
+                for (c, ch) in span.iter() {
+                    g[c.y as usize + dy][c.x as usize + dx] = *ch;
+                }
+                let text: String = g.iter().map(|r| r.iter().collect::<String>().trim_end().to_string()).collect::<Vec<_>>().join("\n") + "\n";
+                let cb = CellBuffer::from(text.as_str());
+                for scale in [1.0f32, 8.0] {
+                    let st = Settings { scale, ..Settings::default() };
+                    let (cw, chh) = cb.get_size(&st);
+                    let (frags, _) = cb.get_fragment_spans();
+                    if frags.is_empty() {
+                        println!("BOUNDED-WITNESS {} arc drawing {:?} yields no fragment", kind, text);
+                        panic!("a drawing yields something");
+                    }
+                    for f in frags {
+                        let (lo, hi) = f.fragment.bounds();
+                        let (lo, hi) = (lo.scale(scale), hi.scale(scale));
+                        if lo.x < 0.0 || lo.y < 0.0 || hi.x > cw || hi.y > chh {
+                            println!("BOUNDED-WITNESS {} arc drawing {:?} at scale {}: {:?} spans ({},{})..({},{}) on a {}x{} canvas", kind, text, scale, f.fragment, lo.x, lo.y, hi.x, hi.y, cw, chh);
+                            panic!("everything drawn from the cell map lies inside the canvas");
+                        }
+                    }
+                    n += 1;
+                }
             }
         }
         println!("BOUNDED-CASES {}", n);
